@@ -276,3 +276,26 @@ def mtl_violation(X, Y, W, b, alpha, fit_intercept):
 def mtl_objective(X, Y, W, b, alpha):
     n = X.shape[0]
     return float(np.sum((Y - X @ W - b) ** 2) / (2 * n) + alpha * np.sum(np.linalg.norm(W, axis=1)))
+
+
+# ------------------------------------------------------------------ harness-side polyfill (trusted base)
+def install_polyfill():
+    """scikit-learn >= 1.6 removed BaseEstimator._validate_data, which skglm's regressors call with
+    validate_separately=(X params, y params). The old method did exactly two check_array calls and recorded
+    n_features_in_. Installed by the harness only (not a change to /repo)."""
+    from sklearn.base import BaseEstimator
+    from sklearn.utils import check_array
+    if hasattr(BaseEstimator, "_validate_data"):
+        return
+
+    def _validate_data(self, X, y=None, reset=True, validate_separately=False, **kw):
+        px, py = validate_separately
+        X = check_array(X, input_name="X", **px)
+        y = check_array(y, input_name="y", **py)
+        if reset:
+            self.n_features_in_ = X.shape[1]
+        return X, y
+    BaseEstimator._validate_data = _validate_data
+
+
+install_polyfill()
